@@ -18,7 +18,7 @@ META = {
              "one side; distinct by structural hash; non-trivial = contains a Barrier/annotation kind or an explicit relation"),
     "assumptions": ["copies are compared position-wise along the operation listing (signature, relation type, index of the referenced operation, schedule relative to the first start)"],
     "floors": {
-        "quick": {"copies_behind_an_operation_compared": 3000, "programs_with_value_equal_twins": 150, "copies_compared": 6000, "repeated_copies_schedule_compared": 3000, "mutation_independence_checks": 3000, "kinds_min_instances": 20, "unrolled_copies_compared": 5000, "listed_then_copied_compared": 5000, "flattened_copies_compared": 5000, "empty_placeholder_checks": 3000, "copies_compared_after_registry_change": 3000},
+        "quick": {"copies_behind_an_operation_compared": 3000, "programs_with_value_equal_twins": 150, "copies_compared": 6000, "repeated_copies_schedule_compared": 3000, "mutation_independence_checks": 3000, "kinds_min_instances": 20, "unrolled_copies_compared": 5000, "listed_then_copied_compared": 5000, "flattened_copies_compared": 5000, "empty_placeholder_checks": 3000, "copies_compared_after_registry_change": 3000, "same_object_nested_twice_checks": 3000, "same_object_nested_twice_grown_inside": 1000},
         "thorough": {"copies_compared": 60000, "mutation_independence_checks": 30000, "kinds_min_instances": 200},
     },
 }
@@ -303,6 +303,32 @@ def check_program(prog: Dict[str, Any], acc: Acc, flags=None):
                     acc.finding("stale-memo/copy-behind-operation" if stale else "copy/schedule-behind-operation",
                                 "a copy nested behind an operation does not report the original's schedule relative to its own start (duration asked before the first listing)",
                                 case, {"only_copy": [repr(x) for x in only_a[:3]], "only_original": [repr(x) for x in only_b[:3]]})
+        # ---- route 9: the SAME circuit object is nested twice into one parent, with an operation added to one of ITS nested sub-circuits
+        #      (through the handle its own add() returned) in between: each implicit copy shows the circuit as it was when it was added
+        #      (seeded change C05-r16: add_sub_circuit copies from a per-source snapshot renewed only when the top-level count changes)
+        built9 = bp.build(prog, bp.Ctx(prog.get("settings")))
+        src9 = built9.top.circuit
+        parent9 = DeclarativeCircuit()
+        as_structure = len(ops_o2) % 2 == 0
+        first9 = parent9.add(src9.circuit_structure if as_structure else src9)
+        sig_first = sorted(snap.op_sig(o) for o in first9.decomposed_operations())
+        nested9 = [h for h, c in zip(built9.top.handles, built9.top.children) if c is not None]
+        target9 = nested9[-1] if nested9 else src9
+        target9.add(bp.make_op({"k": "Ry90", "q": [1]}, ctx, [built9.top]))
+        target9.add(bp.make_op({"k": "CPhase", "q": [0, 1]}, ctx, [built9.top]))
+        sig_src = sorted(snap.op_sig(o) for o in src9.operations)
+        second9 = parent9.add(src9.circuit_structure if as_structure else src9)
+        acc.count("same_object_nested_twice_checks")
+        if nested9:
+            acc.count("same_object_nested_twice_grown_inside")
+        if sorted(snap.op_sig(o) for o in second9.decomposed_operations()) != sig_src:
+            acc.finding("copy/second-nesting-not-current", "a circuit nested a second time after one of its sub-circuits grew is not copied as it is now", case,
+                        {"original": len(sig_src), "copy": len(second9.decomposed_operations())})
+        elif sorted(snap.op_sig(o) for o in first9.decomposed_operations()) != sig_first:
+            acc.finding("independence/first-nesting-moved", "the first nested copy changed when the original grew afterwards", case, None)
+        elif len(parent9.operations) != len(sig_first) + len(sig_src):
+            acc.finding("copy/second-nesting-not-current", "the parent does not list the first copy plus the current content of the circuit nested again", case,
+                        {"listed": len(parent9.operations), "expected": len(sig_first) + len(sig_src)})
         # ---- independence: mutate one side, the other side's snapshot must not move
         if mut["route"] == "structure_copy":
             # wrap the structure copy so that the DeclarativeCircuit mutators are available on it
